@@ -174,6 +174,8 @@ class ArrView:
     return self.st.shape.ndim()
 
   def dim(self, i):
+    if self.st.shape.concrete and isinstance(i, int) and not (-self.st.shape.rank <= i < self.st.shape.rank):
+      return z3.Int('dim-out-of-rank')        # only reachable under a false antecedent on the rank
     return self.st.shape.dim(i)
 
   @property
@@ -287,6 +289,8 @@ class Contract:
     if err:
       ex.raise_(p, 'TypeError', '%s: %s' % (self.target, err))
       return []
+    for v in env.values():
+      refine_rank(p, v)
     case = self.pick_case(env, p, ex)
     if case is None:
       raise Unsupported('no case of contract %s matches the call at line %s' % (self.target, getattr(node, 'lineno', '?')))
@@ -299,13 +303,17 @@ class Contract:
     out = []
     not_raised = []
     for exc, cond in self.raises.items():
-      c = cond(a) if cond is not None else None
-      if c is False:
+      kind, fn = _rc(cond)
+      c = fn(a) if fn is not None else None
+      if c is False or (z3.is_expr(c) and z3.is_false(z3.simplify(c))):
         continue
       q = p.fork()
       if c is not None and c is not True:
         q.assume(c)
-        not_raised.append(z3.Not(c))
+        if kind == 'iff':
+          not_raised.append(z3.Not(c))
+      elif c is True and kind == 'iff':
+        not_raised.append(z3.BoolVal(False))
       if feasible(q.pc):
         ex.raise_(q, exc, 'contract %s' % self.target)
     for c in not_raised:
@@ -358,6 +366,55 @@ def _spec_matches(spec, v, p):
   return False
 
 
+class Iff:
+  """raises E exactly when cond(a) holds"""
+  def __init__(self, fn):
+    self.fn = fn
+
+
+class OnlyIf:
+  """E may be raised, and only when cond(a) holds"""
+  def __init__(self, fn):
+    self.fn = fn
+
+
+class May:
+  """E may be raised; the condition is not specified (an external validator decides)"""
+  fn = None
+
+
+def _rc(cond):
+  """normalise a raises entry -> (kind, fn)"""
+  if cond is None or isinstance(cond, May) or cond is May:
+    return 'may', None
+  if isinstance(cond, OnlyIf):
+    return 'onlyif', cond.fn
+  if isinstance(cond, Iff):
+    return 'iff', cond.fn
+  return 'iff', cond
+
+
+def refine_rank(p, v, timeout=1500):
+  """if the path condition fixes the rank of a symbolic-rank array, make the shape concrete"""
+  if not isinstance(v, VArr):
+    return
+  st = p.store[v.loc]
+  if st.shape.concrete:
+    return
+  s = z3.Solver()
+  s.set(timeout=timeout)
+  s.add(*p.pc)
+  if s.check() != z3.sat:
+    return
+  k = s.model().eval(st.shape.rank, model_completion=True)
+  if not z3.is_int_value(k):
+    return
+  s.add(st.shape.rank != k)
+  if s.check() == z3.unsat:
+    k = k.as_long()
+    p.store[v.loc] = st.replace(shape=Shape(k, [st.shape.dims(z3.IntVal(i)) for i in range(k)]))
+
+
 REGISTRY = {}
 
 
@@ -370,6 +427,7 @@ def register(c):
 class Obligation:
   def __init__(self, oid, kind, assumptions, goal, info=None, prop=None):
     self.id, self.kind, self.assumptions, self.goal, self.info, self.prop = oid, kind, assumptions, goal, info or {}, prop
+    self.axioms_only = None          # restrict the theory (e.g. 'ieee': identities that are exact in binary64)
     self.status = None
     self.result = None
 
@@ -431,7 +489,25 @@ def body_obligations(prog, contract, lib=None, contracts=None, config=None, loop
     # closure context for nested functions is not available: nested targets are verified through their parent
     entry_heap = {k: dict(v) for k, v in p.heap.items()}
     try:
-      results = ex.run_body(fn, dict(entry_env), p, module, contract.target)
+      outer = getattr(contract, 'outer', None)
+      if outer is None:
+        results = ex.run_body(fn, dict(entry_env), p, module, contract.target)
+      else:
+        # nested function: run the enclosing function first and call the closure it returns
+        otarget, ospecs = outer
+        ofn = prog.func(otarget)
+        oenv = {k: spec.make(k, p, ex) for k, spec in ospecs.items()}
+        for k, v in oenv.items():
+          entry_env.setdefault(k, v)
+        entry_heap = {k: dict(v) for k, v in p.heap.items()}
+        inner_env = {k: v for k, v in entry_env.items() if k in params}
+        results = []
+        for q, v in ex.run_body(ofn, dict(oenv), p, module, otarget):
+          if not (isinstance(v, VFunc) and v.node is fn):
+            raise Undecided('%s: enclosing function does not return the nested function' % contract.target)
+          e2 = dict(inner_env)
+          e2['__closure__'] = v.closure
+          results += ex.run_body(fn, e2, q, module, contract.target)
     except Unsupported as e:
       raise Undecided('%s [case %s]: %s' % (contract.target, case.name, e))
     finished = [(q, ('return', v)) for q, v in results] + [(q, q.outcome) for q in ex.collect]
@@ -463,9 +539,10 @@ def body_obligations(prog, contract, lib=None, contracts=None, config=None, loop
                                  dict(result=str(oc[1])[:200], trace=q.trace[-6:])))
         # completeness of the raises clauses: a normal return is only allowed when no iff-condition holds
         for exc, cond in contract.raises.items():
-          if cond is None:
+          kind, rfn = _rc(cond)
+          if kind != 'iff':
             continue
-          c = cond(a)
+          c = rfn(a)
           if c is None:
             continue
           obls.append(Obligation('%s/returns-only-if-not.%s' % (tag, exc), 'raises-complete', list(q.pc), z3.Not(_b(c)),
@@ -491,9 +568,9 @@ def body_obligations(prog, contract, lib=None, contracts=None, config=None, loop
           obls.append(Obligation('%s/no-undeclared-exit.%s' % (tag, exc), 'exits', list(q.pc), z3.BoolVal(False),
                                  dict(where=oc[2] if len(oc) > 2 else '', trace=q.trace[-6:])))
         else:
-          cond = contract.raises[declared]
-          if cond is not None:
-            c = cond(a)
+          kind, rfn = _rc(contract.raises[declared])
+          if rfn is not None:
+            c = rfn(a)
             if c is not None:
               obls.append(Obligation('%s/raises.%s' % (tag, exc), 'raises', list(q.pc), _b(c),
                                      dict(where=oc[2] if len(oc) > 2 else '', trace=q.trace[-6:])))
@@ -513,3 +590,45 @@ def _b(g):
   if isinstance(g, bool):
     return z3.BoolVal(g)
   return g
+
+
+def explore(prog, contract, case_name, lib, overrides=None, loop_hook=None, config=None):
+  """symbolic execution of the real body of contract.target for one case; `overrides` replaces parameter specs
+  (used by property lemmas that run the same body on related inputs).  -> list of (path, outcome, Args)"""
+  fn = prog.func(contract.target)
+  module = contract.target.split(':')[0]
+  case = [c for c in contract.cases if c.name == case_name][0]
+  cfg = dict(config or {})
+  cfg['target'] = contract.target
+  ex = Executor(prog, lib, REGISTRY, cfg)
+  ex.loop_hook = loop_hook
+  p = Path()
+  specs = dict(case.params)
+  specs.update(overrides or {})
+  params = [x.arg for x in fn.args.posonlyargs + fn.args.args + fn.args.kwonlyargs]
+  env = {}
+  outer = getattr(contract, 'outer', None)
+  if outer is not None:
+    for k, spec in outer[1].items():
+      env[k] = spec.make(k, p, ex) if isinstance(spec, Spec) else spec
+  for name in params:
+    sp = specs[name]
+    env[name] = sp.make(name, p, ex) if isinstance(sp, Spec) else sp
+  entry_env = dict(env)
+  if case.pre is not None:
+    p.assume(case.pre(Args(entry_env, p)))
+  try:
+    if outer is None:
+      results = ex.run_body(fn, dict(entry_env), p, module, contract.target)
+    else:
+      ofn = prog.func(outer[0])
+      results = []
+      for q, v in ex.run_body(ofn, {k: entry_env[k] for k in outer[1]}, p, module, outer[0]):
+        e2 = {k: v2 for k, v2 in entry_env.items() if k in params}
+        e2['__closure__'] = v.closure
+        results += ex.run_body(fn, e2, q, module, contract.target)
+  except Unsupported as e:
+    raise Undecided('%s [case %s]: %s' % (contract.target, case_name, e))
+  out = [(q, ('return', v), Args(entry_env, q)) for q, v in results]
+  out += [(q, q.outcome, Args(entry_env, q)) for q in ex.collect]
+  return out
